@@ -63,6 +63,17 @@ class C20(object):
                 tot = sum(xz)
                 c['x'] = [str(v / tot) for v in xz]
                 c['delta'] = rng.choice([1e-3, 1e-2, 0.05])
+            if kind == 'downsample' and rng.random() < 0.5:
+                # a pmf that already is a grid point (with zeros): snapping must leave it alone, in floats too
+                m = rng.choice([3, 5, 6, 7, 9, 10, 12])
+                cuts = sorted(rng.randint(0, m) for _ in range(dim - 1))
+                parts = [b - a for a, b in zip([0] + cuts, cuts + [m])]
+                rng.shuffle(parts)
+                parts.sort(key=lambda v: v == 0)       # zeros last, as often as not
+                if rng.random() < 0.5:
+                    rng.shuffle(parts)
+                c['x'] = [str(Fraction(v, m)) for v in parts]
+                c['sub'] = m
             if kind == 'convex':
                 m = rng.randint(1, 4)
                 c['pmfs'] = [[str(v) for v in self.rand_comp(rng, dim)] for _ in range(m)]
